@@ -250,28 +250,21 @@ def rows_rule(ck: Checker, rule: str) -> None:
 
 
 def _compare_rules(ck: Checker) -> None:
-    prog, res = ck.prog, ck.res
-    cmp_ = prog.func("index.checkout", "_compare")
+    prog = ck.prog
+    cmp_ = prog.inlined_view(prog.func("index.checkout", "_compare"))
     g = ck.cfg(cmp_)
-    kids = cmp_.children
+    QUEUES = ("files_delete", "files_create", "dirs_delete", "dirs_create")
 
-    def enqueues(fn: Func, what: str) -> bool:
-        """Does closure fn append to ret.<what>* ?"""
-        for c, _ in res.calls_in(fn):
-            if is_method_call(c, "append") and what in norm(c.func.value):
-                return True
-        return False
+    def queue_of(c: ast.Call) -> Optional[str]:
+        if is_method_call(c, "append") and c.args:
+            last = norm(c.func.value).split(".")[-1]
+            if last in QUEUES or last == "files_chmod":
+                return last
+        return None
 
-    del_helpers = [f for f in kids.values() if enqueues(f, "_delete")]
-    create_helpers = [f for f in kids.values() if enqueues(f, "files_create") or enqueues(f, "dirs_create")]
-
-    def is_delete_enqueue(c: ast.Call) -> bool:
-        if is_method_call(c, "append") and "_delete" in norm(c.func.value):
-            return True
-        return any(cal.fq in {h.fq for h in del_helpers} for cal in res.resolve(cmp_, c))
-
-    sinks = [(n, c) for n in g.nodes.values() for c in calls_at(n) if is_delete_enqueue(c)]
-    ck.floor("C09.delete", len(sinks), 2, "queue-for-deletion sites in _compare")
+    apps = [(n, c, queue_of(c)) for n in g.nodes.values() for c in calls_at(n) if queue_of(c)]
+    sinks = [(n, c) for n, c, q in apps if q.endswith("_delete")]
+    ck.floor("C09.delete", len(sinks), 2, "queue-for-deletion sites in _compare (closures inlined)")
 
     def typ_is(t, lab, names) -> bool:
         e = t.ast
@@ -296,80 +289,81 @@ def _compare_rules(ck: Checker) -> None:
                    "a workspace entry outside the target can be queued for deletion although deletion is not enabled",
                    witness=g.fmt_path(wit) if wit else None)
 
-    # kinds: closures route by meta.isdir / isexec
-    for h in del_helpers + create_helpers:
-        gh = ck.cfg(h)
-        dir_apps = {x.id for x in gh.nodes.values() for c in calls_at(x) if is_method_call(c, "append") and "dirs_" in norm(c.func.value)}
-        file_apps = {x.id for x in gh.nodes.values() for c in calls_at(x) if (is_method_call(c, "append") and "files_" in norm(c.func.value) and "chmod" not in norm(c.func.value))
-                     or any(cal.fq in {k.fq for k in kids.values()} and cal.fq != h.fq for cal in res.resolve(h, c))}
-        if dir_apps:
-            def isdir_T(t, lab):
-                return t.kind == "test" and lab == "T" and norm(t.ast).endswith(".isdir")
+    # kinds: every queue receives an entry only after that entry's kind was tested
+    n_kind = 0
+    _alts_cache: Dict[int, str] = {}
+    for n, c, lst in apps:
+        if lst == "files_chmod":
+            continue
+        arg = norm(c.args[0])
+        side = "old" if arg.endswith(".old") else ("new" if arg.endswith(".new") else None)
+        if side is None:
+            ck.fail("C09.kinds", cmp_, n, f"`{norm(c)}` queues something that is neither change.old nor change.new")
+            continue
+        n_kind += 1
+        want_dir = lst.startswith("dirs_")
 
-            def isdir_F(t, lab):
-                return t.kind == "test" and lab == "F" and (norm(t.ast).endswith(".isdir") or norm(t.ast).endswith(".meta"))
+        def kind_lit(t, lab, side=side, want_dir=want_dir):
+            if t.kind != "test":
+                return False
+            alts = _alts_cache.get(id(t.ast))
+            if alts is None:
+                alts = _alts_cache[id(t.ast)] = " | ".join(norm(a) for a in [t.ast] + expand1(prog, cmp_, t.ast, levels=2))
+            if f"{side}.meta" not in alts and f"{side}_meta" not in alts and f"{side}_isdir" not in norm(t.ast):
+                return False
+            isdir = ".isdir" in alts or "_isdir" in norm(t.ast)
+            if want_dir:
+                return isdir and lab == "T"
+            return lab == "F" and (isdir or norm(t.ast).endswith(".meta") or norm(t.ast).endswith("_meta"))  # not isdir, or no meta at all
 
-            for d in dir_apps:
-                wit = cut(gh, [d], isdir_T)
-                ck.require(wit is None, "C09.kinds", h, gh.nodes[d], "directory list receives only entries with meta.isdir", "a non-directory entry can be queued as a directory", witness=gh.fmt_path(wit) if wit else None)
-            for f in file_apps:
-                wit = cut(gh, [f], isdir_F)
-                ck.require(wit is None, "C09.kinds", h, gh.nodes[f], "file list receives only non-directory entries", "a directory entry can be queued as a file", witness=gh.fmt_path(wit) if wit else None)
-    # direct appends in _compare itself honour the entry kind as well
-    for n in g.nodes.values():
-        for c in calls_at(n):
-            if is_method_call(c, "append") and c.args and norm(c.func.value).split(".")[-1] in ("files_delete", "files_create", "dirs_delete", "dirs_create"):
-                lst = norm(c.func.value).split(".")[-1]
-                arg = norm(c.args[0])
-                side = "old" if arg.endswith(".old") else ("new" if arg.endswith(".new") else None)
-                if side is None:
-                    continue
-                want_dir = lst.startswith("dirs_")
-
-                def kind_lit(t, lab, side=side, want_dir=want_dir):
-                    if t.kind != "test":
-                        return False
-                    alts = " | ".join(norm(a) for a in [t.ast] + expand1(prog, cmp_, t.ast, levels=2))
-                    if f"{side}.meta" not in alts and f"{side}_meta" not in alts and f"{side}_isdir" not in norm(t.ast):
-                        return False
-                    isdir = ".isdir" in alts or "_isdir" in norm(t.ast)
-                    if want_dir:
-                        return isdir and lab == "T"
-                    return lab == "F"  # not isdir, or no meta at all
-
-                w = cut(g, [n.id], kind_lit)
-                ck.require(w is None, "C09.kinds", cmp_, n,
-                           f"{lst} receives change.{side} only after its kind was tested",
-                           f"change.{side} is appended to {lst} without testing whether it is a directory: a replaced directory would be handed to the recursive file removal (or a file to rmdir)",
-                           witness=g.fmt_path(w) if w else None)
+        w = cut(g, [n.id], kind_lit)
+        ck.require(w is None, "C09.kinds", cmp_, n,
+                   f"{lst} receives change.{side} only after its kind was tested ({'is' if want_dir else 'is not'} a directory)",
+                   f"change.{side} can be appended to {lst} {'without being a directory' if want_dir else 'although it is a directory'}: a replaced directory would be handed to the recursive file removal (or a file to rmdir / mkdir)",
+                   witness=g.fmt_path(w) if w else None)
+    ck.floor("C09.kinds", n_kind, 6, "queue appends in _compare (closures inlined)")
     # executable files are always queued for chmod when queued for creation
-    fc = [f for f in kids.values() if any(is_method_call(c, "append") and "files_create" in norm(c.func.value) for c, _ in res.calls_in(f))]
-    ck.floor("C09.kinds", len(fc), 1, "closures that queue file creation")
-    for h in fc:
-        gh = ck.cfg(h)
-        chm = {x.id for x in gh.nodes.values() for c in calls_at(x) if is_method_call(c, "append") and "files_chmod" in norm(c.func.value)}
+    for n, c, lst in apps:
+        if lst != "files_create":
+            continue
+        arg = norm(c.args[0])
+        chm = {x.id for x, c2, q in apps if q == "files_chmod" and norm(c2.args[0]) == arg}
 
-        def skip(a, lab, b):
+        def skip(a, lab, b, arg=arg):
+            if lab == "exc":
+                return True
             t = norm(a.ast) if a.kind == "test" else ""
-            return lab == "exc" or (a.kind == "test" and lab == "F" and (t.endswith(".isexec") or t.endswith(".meta")))
+            return a.kind == "test" and lab == "F" and t in (f"{arg}.meta.isexec", f"{arg}.meta")
 
-        reached = gh.reach([gh.entry], skip_node=lambda x: x.id in chm, skip_edge=skip)
-        bad = gh.exit in reached
-        ck.require(bool(chm) and not bad, "C09.kinds", h, h.node,
+        starts = [d for lab, d in g.nodes[n.loops[-1]].succ if lab == "T"] if n.loops else [g.entry]
+        reached = g.reach(starts, skip_node=lambda x: x.id in chm, skip_edge=skip, include_start=True)
+        bad = n.id in reached
+        ck.require(bool(chm) and not bad, "C09.kinds", cmp_, n,
                    "every executable file queued for creation is also queued for chmod",
                    "an executable target file can be queued for creation without being queued for chmod (it ends up non-executable)",
-                   witness=gh.fmt_path(gh.path_to(reached, gh.exit)) if bad else None, construct=f"def {h.name} / isexec => chmod")
-        crt = {x.id for x in gh.nodes.values() for c in calls_at(x) if is_method_call(c, "append") and "files_create" in norm(c.func.value)}
-        reached = gh.reach([gh.entry], skip_node=lambda x: x.id in crt, skip_edge=lambda a, l, b: l == "exc")
-        ck.require(gh.exit not in reached, "C09.kinds", h, h.node, "every entry handed to the helper is queued for creation", "the file-create helper can return without queueing the entry", construct=f"def {h.name} / always queues")
+                   witness=g.fmt_path(g.path_to(reached, n.id)) if bad and n.id in reached else None, construct=f"{norm(c)} / isexec => chmod")
+    # an added entry is always queued for creation; a deleted one (with delete enabled) for deletion
+    for names, suffix, what in ((("ADD",), "_create", "an added entry"), (("DELETE",), "_delete", "a deleted entry (delete enabled)")):
+        tests = [t for t in g.nodes.values() if typ_is(t, "T", names) or typ_is(t, "F", names)]
+        ck.floor("C09.kinds", len(tests), 1, f"{names[0]} branches in _compare")
+        for t in tests:
+            lab0 = "T" if typ_is(t, "T", names) else "F"
+            must = {x.id for x, _c, q in apps if q.endswith(suffix)}
+            heads = set(t.loops[-1:])
+            r = g.reach([d for lab, d in t.succ if lab == lab0], skip_node=lambda x: x.id in must,
+                        skip_edge=lambda a, l, b: l == "exc" or (a.kind == "test" and isinstance(a.ast, ast.Name) and a.ast.id == "delete" and l == "F"), include_start=True)
+            r2 = {x for x in r if x in heads or x == g.exit}
+            starts_in_must = all(d in must for lab, d in t.succ if lab == lab0)
+            ck.require(starts_in_must or not r2, "C09.kinds", cmp_, t, f"{what} is always queued ({suffix[1:]})", f"{what} can pass through _compare without being queued in any *{suffix} list",
+                       witness=g.fmt_path(g.path_to(r, next(iter(r2)))) if r2 and not starts_in_must else None, construct=f"{norm(t.ast)} / always queued")
     # MODIFY with changed hash/kind: both delete(old) and create(new)
-    del_calls = [(n, c) for n, c in sinks if c.args and norm(c.args[0]).endswith(".old")]
-    crt_calls = [(n, c) for n in g.nodes.values() for c in calls_at(n) if any(cal.fq in {h.fq for h in create_helpers} for cal in res.resolve(cmp_, c)) and c.args and norm(c.args[0]).endswith(".new")]
+    del_calls = [(n, c) for n, c in sinks if norm(c.args[0]).endswith(".old")]
+    crt_calls = [(n, c) for n, c, q in apps if q.endswith("_create") and norm(c.args[0]).endswith(".new")]
     mod_tests = [t for t in g.nodes.values() if typ_is(t, "T", ("MODIFY",)) or typ_is(t, "F", ("MODIFY",))]
     ck.floor("C09.kinds", len(mod_tests), 1, "MODIFY branches in _compare")
     for t in mod_tests:
         mlab = "T" if typ_is(t, "T", ("MODIFY",)) else "F"
-        r = g.reach([d for lab, d in t.succ if lab == mlab], skip_node=lambda x: x.kind == "for")
+        r = g.reach([d for lab, d in t.succ if lab == mlab], skip_node=lambda x: x.kind == "for", include_start=True)
         d_in = [n for n, c in del_calls if n.id in r]
         c_in = [n for n, c in crt_calls if n.id in r]
         ok = bool(d_in) and bool(c_in)
